@@ -1015,6 +1015,23 @@ func c20Corpus() []c20Case {
 		// the same with the element present in the file: works
 		{Mode: "corpus", HasFile: true, File: []c20Leaf{{[]c20Seg{k("l"), i(0), k("q")}, "2"}},
 			Env: []c20Var{{c20Prefix + "L_0_R_S", "deep"}}},
+		// C20-F4 with the element (and its config map) in the file: two options of one element from the
+		// environment; one of them is lost for some map orders (C20_F4_sharing_refuted)
+		{Mode: "corpus", HasFile: true,
+			File: []c20Leaf{{[]c20Seg{k("a"), i(0), k("id")}, "x"}, {[]c20Seg{k("a"), i(0), k("config"), k("u")}, "1"}},
+			Env:  []c20Var{{c20Prefix + "A_0_CONFIG_USER", "bob"}, {c20Prefix + "A_0_CONFIG_PASSWORD", "pw"}}},
+		// the C20-F4 name shape inside the F4n theorems (C20_domainN_nonvacuous): the element is a map in the
+		// file and the variable is alone at its first name segment
+		{Mode: "corpus", HasFile: true,
+			File: []c20Leaf{
+				{[]c20Seg{k("mechanisms"), k("authenticators"), i(0), k("id")}, "a1"},
+				{[]c20Seg{k("mechanisms"), k("authenticators"), i(0), k("type")}, "basic_auth"},
+				{[]c20Seg{k("mechanisms"), k("authenticators"), i(0), k("config"), k("user_id")}, "u"},
+				{[]c20Seg{k("log"), k("level")}, "info"}},
+			Env: []c20Var{{c20Prefix + "MECHANISMS_AUTHENTICATORS_0_CONFIG_PASSWORD", "secret"},
+				{c20Prefix + "MECHANISMS_AUTHENTICATORS_0_ID", "a2"},
+				{c20Prefix + "MECHANISMS_AUTHENTICATORS_1_TYPE", "anonymous"},
+				{c20Prefix + "LOG_LEVEL", "debug"}}},
 		// top-level list built index by index from separately arriving variables
 		{Mode: "corpus", Env: []c20Var{{c20Prefix + "L_2", "c"}, {c20Prefix + "L_0", "a"}, {c20Prefix + "L_1", "b"}}},
 		// environment wins for exactly one leaf; defaults fill
